@@ -160,7 +160,9 @@ fn leap_second_fields(r: &mut Rng) -> (i64, i64, i64, i64, i64, i64, i64) {
         4 => {
             // right day, wrong time of day
             let (y, m, d) = *r.pick(&LEAP_SECOND_DAYS);
-            let (h, mi) = *r.pick(&[(0i64, 0i64), (23, 58), (22, 59), (12, 59), (23, 0), (0, 59)]);
+            // (24:59 included: hour = 24 alone is left open by the property, but second = 60 "at any other time of day"
+            // must be rejected whatever the hour)
+            let (h, mi) = *r.pick(&[(0i64, 0i64), (23, 58), (22, 59), (12, 59), (23, 0), (0, 59), (24, 59), (24, 0)]);
             (y, m, d, h, mi, 60, ns)
         }
         5 => {
